@@ -86,7 +86,8 @@ class Interp(object):
         self._ps_keep = []
         self._last_values = None
         self.seq_mode = False
-        self.br.oracle = lambda pc, extra: self.query(pc, extra, self.br.feas_timeout_ms, approx_ok=True)
+        self.br.oracle = lambda pc, extra: self.query(pc, extra, self.br.feas_timeout_ms,
+                                                      approx_ok=not self.config.get('exact'))
         self._abs_solver = None
         self._abs_ids = []
         self._abs_nn_done = set()
@@ -344,6 +345,20 @@ class Interp(object):
         if is_lit_true(t):
             return True
         return self.query(self.st.pc, z3.Not(t), timeout_ms) == z3.unsat
+
+    def entails_cheap(self, t):
+        """Entailment decided by the arithmetic abstraction only (in-process, milliseconds);
+        False means `not shown`."""
+        t = self.rw(t)
+        if is_lit_true(t):
+            return True
+        if is_lit_false(t):
+            return False
+        pc = [p for p in self.st.pc if not self.has_quant(p)]
+        try:
+            return self.abstract_check(pc, z3.Not(t)) == z3.unsat
+        except z3.Z3Exception:
+            return False
 
     def rw(self, t):
         """Simplify under the equalities fixed by case splits."""
